@@ -189,6 +189,9 @@ def run_shards(prop_id, exe, nshards, seed, tier, budget_s, extra=None, events=F
         e = base_env()
         e["RUST_BACKTRACE"] = "0"
         e["VERIF_REPO"] = REPO
+        tmpd = os.path.join(WORK, "tmp")
+        os.makedirs(tmpd, exist_ok=True)
+        e["TMPDIR"] = tmpd
         if env:
             e.update(env)
         if per_shard_env:
